@@ -98,10 +98,12 @@ def run(case, rec, model):
         in_multi = {r[1:4] and tuple(r[1:4]) for n, rows in outs if sum(1 for r in rows if r[0] == "F") > 1 for r in rows if r[0] == "F"}
         if any(k in in_multi for k in left):
             classes.add("leftover_joined_to_other_rows")
+    if case.get("gap_only_pieces"):
+        classes.add(f"gap_only_pieces_{case['gap_only_pieces']}")
     try:
         oracle(case, outs, model, classes)
     finally:
-        rec.note(case, bool(classes & {"leftover_joined_to_other_rows", "junction_between_non_neighbours"}), classes)
+        rec.note(case, bool(classes & {"leftover_joined_to_other_rows", "junction_between_non_neighbours"}) or case.get("gap_only_pieces", 0) >= 2, classes)
 
 
 def body_model(case, rec):
@@ -223,6 +225,63 @@ def cli_cases(draw):
 
 
 @st.composite
+def emptied_piece_cases(draw):
+    """
+    Pieces that end up with NO rows: a small contig (under a texel) sits between two long gaps and the curator's cut
+    falls inside it; the piece holding only gap plus the smaller share of the contig loses it to its neighbour. One to
+    three such pieces (from different scaffolds) are placed one after the other inside or at the end of a painted
+    chromosome.
+    """
+    import math
+
+    t = draw(st.sampled_from([10.0, 10.0, 7.0, 12.5, 100.0]))
+    T = int(t)
+    n = draw(st.integers(1, 3))
+    inp = [["scaffold_1", [["F", "scaffold_1", 1, draw(st.integers(5, 30)) * T, 1]]]]
+    middle, others = [], []
+    for i in range(2, n + 2):
+        name = f"scaffold_{i}"
+        big1 = draw(st.integers(4, 12)) * T - draw(st.integers(0, T - 1))
+        gap1 = draw(st.integers(2, 4)) * T + draw(st.integers(0, T - 1))
+        # the small contig straddles the texel boundary m
+        m = math.ceil((big1 + gap1 + 1) / t) + draw(st.integers(0, 1))
+        left = draw(st.integers(1, max(1, T // 2 - 1)))            # share in the gap-only piece
+        right = draw(st.integers(left + 1, max(left + 1, T - 2)))  # larger share in the next piece
+        start_small = math.floor(m * t) - left + 1
+        gap1 = start_small - 1 - big1
+        if gap1 < 2 * T:
+            continue
+        gap2 = draw(st.integers(2, 4)) * T
+        big2 = draw(st.integers(4, 12)) * T
+        rows = [["F", name, 1, big1, 1], ["G", gap1, "scaffold"], ["F", name, start_small, start_small + left + right - 1, 1],
+                ["G", gap2, "scaffold"]]
+        pos = start_small + left + right + gap2
+        rows.append(["F", name, pos, pos + big2 - 1, 1])
+        total = pos + big2 - 1
+        n_tex = math.floor(total / t)
+        k_a = math.ceil((big1 + 1) / t) + draw(st.integers(0, 1))   # first cut: inside the first gap
+        if not (k_a >= 2 and m - k_a >= 2 and n_tex - m >= 2):
+            continue
+        inp.append([name, rows])
+        pcs = [gen.piece_coords(a, b, t) for a, b in ((0, k_a), (k_a, m), (m, n_tex))]
+        middle.append(["F", name, pcs[1][0], pcs[1][1], draw(st.sampled_from([1, 1, -1])), ["Painted"]])
+        others.append([["F", name, pcs[0][0], pcs[0][1], 1, []], ["F", name, pcs[2][0], pcs[2][1], 1, []]])
+    first = ["F", "scaffold_1", 1, ref.rows_len(inp[0][1]), 1, ["Painted"]]
+    chain = [first, *middle]
+    if middle and draw(st.booleans()):
+        chain.insert(draw(st.integers(0, len(chain) - 1)), chain.pop())   # the emptied pieces not always last
+    rows1 = []
+    for r in chain:
+        if rows1:
+            rows1.append(list(gen.PRETEXT_GAP))
+        rows1.append(r)
+    mp = [["Scaffold_1", rows1]]
+    for pair in others:
+        mp.append([f"Scaffold_{len(mp) + 1}", [pair[0], list(gen.PRETEXT_GAP), pair[1]]])
+    return {"t": gen.texel_str(t), "input": inp, "map": mp, "prefix": "SUPER_", "gap_only_pieces": len(middle)}
+
+
+@st.composite
 def partial_cases(draw):
     """
     Outside the PretextView model: baits cover only a run of contigs in the middle of a scaffold
@@ -254,6 +313,10 @@ SUBS = [
     Sub("perturbed", kind="hyp", strategy=perturbed_cases, body=body_perturbed,
         budget={"quick": 8000, "thorough": 100000},
         desc="perturbed maps that complete, first sentence only"),
+    Sub("emptied_pieces", kind="hyp", strategy=emptied_piece_cases, body=body_model,
+        budget={"quick": 3000, "thorough": 50000}, desc="one to three pieces in a row that lose their only contig to a neighbour (gap plus the smaller share of a sub-texel contig), inside or at the end of a painted chromosome"),
+    Sub("slivers", kind="hyp", strategy=lambda: gen.tagged_case(slivers=True, two_haplotypes=False, max_scaffolds=4, max_contigs=6, piece_tag_weight=6, unloc_weight=50, many_painted=True), body=body_tagged,
+        budget={"quick": 6000, "thorough": 100000}, desc="fractional texels, gaps of about two texels, many cuts near contig ends: pieces that cover mostly gap (overlap results emptied by trimming), several in a row"),
     Sub("tagged", kind="hyp", strategy=lambda: gen.tagged_case(max_scaffolds=5, max_contigs=6, piece_tag_weight=5), body=body_tagged,
         budget={"quick": 8000, "thorough": 150000}, desc="tagged maps incl. Target mode and two haplotypes: gap rows of every output assembly (curated, haplotigs, contaminants, false duplicates)"),
     Sub("cli", kind="hyp", strategy=cli_cases, body=body_cli,
